@@ -295,6 +295,33 @@ func c05Run(raw json.RawMessage) harn.Result {
 		if !okFaces {
 			viol("C05:stream:faces", fmt.Sprintf("seed %d: %s rolled %v, the reference PCG stream gives %v", c.Seed, src, got, want))
 		}
+		// RunExpr evaluates on the same context: its dice are further fresh draws, and the dice after it continue the stream
+		rv, rerr := vm.RunExpr(fmt.Sprintf("3d%d", c.N), false)
+		var rsum uint64
+		for i := 0; i < 3; i++ {
+			rsum += refRoll64(&st, uint64(c.N))
+		}
+		if rerr != nil || rv == nil || rv.ToString() != fmt.Sprint(rsum) {
+			if c.N < 1<<40 { // sums of huge faces overflow; only the stream position matters there
+				viol("C05:stream:RunExpr", fmt.Sprintf("seed %d: RunExpr(3d%d) gave %v (err %v), the reference stream gives %d", c.Seed, c.N, rv, rerr, rsum))
+			}
+		}
+		if err := vm.Run(src); err != nil {
+			viol("C05:stream:error", err.Error())
+			return res
+		}
+		var want2 []uint64
+		for i := 0; i < k; i++ {
+			want2 = append(want2, refRoll64(&st, uint64(c.N)))
+		}
+		got2 := atoiAllBig(vm.DetailSpans[0].Text)
+		ok2 := len(got2) == k
+		for i := 0; ok2 && i < k; i++ {
+			ok2 = got2[i] == want2[i]
+		}
+		if !ok2 {
+			viol("C05:stream:after-RunExpr", fmt.Sprintf("seed %d: after RunExpr the next %s rolled %v, the reference stream continues with %v (a die was replayed or skipped)", c.Seed, src, got2, want2))
+		}
 		after, _ := vm.GetCurSeed()
 		if binary.BigEndian.Uint64(after[:8]) != st.hi || binary.BigEndian.Uint64(after[8:]) != st.lo {
 			viol("C05:stream:state", fmt.Sprintf("seed %d: generator state after %s differs from the reference (dice must be successive fresh draws of the context's generator)", c.Seed, src))
